@@ -15,7 +15,7 @@ using namespace vf;
 
 namespace {
 
-struct Problem { int n; std::vector<double> A, b, x, xF; int nthreads; int nalpha; };
+struct Problem { int n; std::vector<double> A, b, x, xF; int nthreads; int nalpha; int cpu_limit = -1; };
 
 Problem gen_problem(Chooser& ch, int max_threads, int max_alpha) {
   Problem p;
@@ -32,6 +32,9 @@ Problem gen_problem(Chooser& ch, int max_threads, int max_alpha) {
   p.b.resize(p.n); for (auto& v : p.b) v = (double)ch.range(-4, 4);
   p.nthreads = 1 + (int)ch.draw(0, max_threads - 1);
   p.nalpha = 2 + nneg;
+  // fewer usable CPUs than workers: pinning worker k to CPU k fails for k >= cpu_limit (the line search has to go on unpinned)
+  static const int limits[] = {-1, -1, 1, 2};
+  p.cpu_limit = gen_version() >= 2 ? limits[ch.draw(0, 3)] : -1;
   return p;
 }
 
@@ -49,7 +52,7 @@ RunResult run_schedule(const Problem& p, const std::vector<int>& prefix, int pol
     setenv("OMP_NUM_THREADS", std::to_string(p.nthreads).c_str(), 1);
     unsetenv("GOTO_NUM_THREADS");
     vs::Control& c = vs::control();
-    c.prefix = prefix; c.policy = policy; c.seed = seed; c.report_fd = fds[1]; c.pct_changes = 2; c.max_steps = 4000; c.preempt_bound = preempt_bound;
+    c.prefix = prefix; c.policy = policy; c.seed = seed; c.report_fd = fds[1]; c.pct_changes = 2; c.max_steps = 4000; c.preempt_bound = preempt_bound; c.cpu_limit = p.cpu_limit;
     vs::reset_for_child();
     cholmod_common cc; cholmod_l_start(&cc);
     cholmod_dense* Ad = cholmod_l_allocate_dense(p.n, p.n, p.n, CHOLMOD_REAL, &cc);
@@ -98,7 +101,7 @@ std::string prefix_str(const std::vector<int>& p) { std::string s = "["; for (si
 std::string problem_json(const Problem& p) {
   std::ostringstream o;
   o << "{\"n\":" << p.n << ",\"workers\":" << p.nthreads << ",\"trial_steps\":" << p.nalpha << ",\"blocks\":" << (p.nalpha + p.nthreads - 1) / p.nthreads
-    << ",\"x\":" << jarr(p.x) << ",\"x_F\":" << jarr(p.xF) << "}";
+    << ",\"usable_cpus\":" << p.cpu_limit << ",\"x\":" << jarr(p.x) << ",\"x_F\":" << jarr(p.xF) << "}";
   return o.str();
 }
 
